@@ -158,6 +158,11 @@ def main(argv=None):
     ap.add_argument("--verbose", "-v", action="store_true")
     a = ap.parse_args(argv)
     os.chdir(ROOT)
+    try:  # failures left in garbage-collected Deferreds of the bounded tiers are not this check's output
+        import twisted.logger
+        twisted.logger.globalLogBeginner.beginLoggingTo([lambda e: None], redirectStandardIO=False, discardBuffer=True)
+    except Exception:
+        pass
     seed = int(os.environ.get("VERIF_SEED", "0") or 0)
     if a.replay:
         return replay(a.prop, a.replay)
